@@ -102,6 +102,29 @@ SPACES = {"space": " ", "tab": "\t", "lf": "\n", "cr": "\r", "vt": "\x0b", "ff":
           "em_space": "\u2003", "ideographic_space": "\u3000", "fs": "\x1c", "nel": "\x85", "line_sep": "\u2028"}
 
 
+def group_of(cls: str) -> str:
+    """Coarse, stable class of a near miss (used in violation keys)."""
+    if cls.startswith("count_"):
+        return "subauthority_count_0_or_16+"
+    if cls.startswith("sub_"):
+        return "subauthority_ge_2^32"
+    if cls.startswith("auth_"):
+        return "authority_ge_2^64" if cls in ("auth_2^64", "auth_2^64+1", "auth_2^128", "auth_10^40") else "authority_2^48_to_2^64"
+    if cls == "trailing_newline":
+        return "trailing_newline"
+    if cls.startswith(("trailing_", "leading_", "inner_")):
+        return "whitespace"
+    if cls.startswith("nonascii_and") or cls.startswith("newline_and"):
+        return "two_defects"
+    if cls.startswith("nonascii_"):
+        return "nonascii_digits"
+    if "sign" in cls or cls.startswith("plus"):
+        return "sign"
+    if "empty" in cls:
+        return "empty_part"
+    return cls
+
+
 def near_misses(ctx: Ctx) -> list[tuple[str, str, str]]:
     """(want, class label, string).  Generated from the negation of the grammar:
     canonical SID + one (sometimes two) of the defects the statement names."""
@@ -129,8 +152,8 @@ def near_misses(ctx: Ctx) -> list[tuple[str, str, str]]:
         parts = base.split("-")
         # --- number of sub-authorities
         add("reject", "count_0", _sid(r, a, []))
-        for extra in (16, 17, 31, 255, 256):
-            add("reject", f"count_{extra}", _sid(r, a, (list(subs) * 260)[:extra]))
+        for extra in (16, 17, 31, 64):
+            add("reject", f"count_{extra}", _sid(r, a, (list(subs) * 64)[:extra]))
         # --- out-of-range values
         for pos in sorted({0, n // 2, n - 1}):
             where = "first" if pos == 0 else ("last" if pos == n - 1 else "mid")
@@ -187,8 +210,9 @@ def near_misses(ctx: Ctx) -> list[tuple[str, str, str]]:
         add("dontcare", "hex_authority", "-".join(parts[:2] + ["0x5"] + parts[3:]))
         add("dontcare", "trailing_letter", base + "x")
         add("dontcare", "no_authority", "S-" + str(r))
-    for s in ("", "S", "S-", "-", "--", "S--", "S-1-", "S-1--"):
+    for s in ("", "S-", "-", "--", "S--", "S-1-", "S-1--"):
         add("reject", "degenerate_empty_parts", s)
+    add("dontcare", "bare_s", "S")
     add("dontcare", "sddl_alias", "SY")
     add("dontcare", "junk", "hello")
     seen: set[str] = set()
@@ -296,7 +320,7 @@ def run(ctx: Ctx) -> int:
         if row["want"] == "canonical":
             key = "layout:" + "+".join(clauses)
         else:
-            key = f"reject:{row['cls']}:{row['o1']}/{row['o2']}"
+            key = f"reject:{group_of(row['cls'])}:{row['o1']}/{row['o2']}"
         groups.setdefault(key, []).append((row, clauses))
     for key, items in sorted(groups.items()):
         row, clauses = min(items, key=lambda it: len(it[0]["s"]))
@@ -307,7 +331,9 @@ def run(ctx: Ctx) -> int:
                       f"{bytes(row['sid']).hex()}, get_target_sd -> {row['o2']} {bytes(row['sd']).hex()}; "
                       f"MS-DTYP: sid {sdref.sid_bytes(s).hex()} sd {sdref.target_sd(s).hex()}")
         else:
-            detail = (f"{len(items)} strings of class {row['cls']}; e.g. {s!r}: sid_to_bytes -> {row['o1']}"
+            labels = sorted({it[0]["cls"] for it in items})
+            detail = (f"{len(items)} strings ({', '.join(labels[:12])}{' ...' if len(labels) > 12 else ''}); "
+                      f"e.g. {s!r}: sid_to_bytes -> {row['o1']}"
                       f"{' ' + bytes(row['sid']).hex() if row['o1'] == 'ok' else ''}, get_target_sd -> {row['o2']}; "
                       "the statement requires ValueError")
         ctx.violation(key, ",".join(clauses), {"string": s, "code_points": row["s"], "class": row["cls"], "o1": row["o1"],
